@@ -173,4 +173,6 @@ func checkC01(c *Ctx) {
 	rulePlumbing(c, "C01.7")
 	c.Rule("C01.8", "reading back cannot panic: every potentially panicking construct reachable from ReadFrom (incl. the tempo post-processing that runs on every read) is discharged for unknown inputs (= C05.1)", 15)
 	c.include(checkC05, map[string]string{"C05.1": "C01.8"})
+	c.Rule("C01.9", "what was written is read back however the file delivers it: the read discipline of C09 (one-byte reads with a checked count or fill-or-fail primitives on the source, data together with io.EOF, no escape of the source) — a file on disk or behind a buffer hands out short counts that a memory reader never does", 3)
+	c.include(checkC09, map[string]string{"C09.1": "C01.9", "C09.2": "C01.9", "C09.3": "C01.9"})
 }
